@@ -53,6 +53,9 @@ def main():
         'python': sys.version.split()[0],
     })
 
+    gc.collect()
+    gc.freeze()      # keep the collector from writing to (and so copying) the zygote's pages in children
+
     while True:
         pid = os.fork()
         if pid == 0:
